@@ -341,6 +341,21 @@ def c05_streams(run, tier, seed):
             pr = raw("low_rom", maps + body, regions=regions)
             pr["meta"] = (mn, 0, "layouts-in-sequence", "ram-target" if kind == "ram" else "seq", "low_rom")
             progs.append(pr)
+    # code that runs out of the last ROM bank in front of RAM-mapped banks (HiROM: 0x7dffff -> 0x7e0000; a user layout with
+    # RAM behind ROM): the branch that follows has a RAM run address
+    for k in range(6 if tier == "quick" else 40):
+        mn = rng.choice(mns)
+        pad = rng.randrange(1, 6)
+        start = 0x7E0000 - pad
+        if k % 2 == 0:
+            pr = raw("high_rom", f"*=0x{start:06x}\nback:\n" + "nop\n" * (pad + rng.randrange(0, 4)) + f"{mn} back\n")
+        else:
+            maps = (".map identifier=1 bank_range=0x00,0x7f addr_range=0,0xffff mask=0x10000\n"
+                    ".map identifier=2 bank_range=0x7e,0x7f addr_range=0,0xffff mask=0x10000 writable=1\n")
+            pr = raw("low_rom", maps + f"*=0x{start:06x}\nback:\n" + "nop\n" * (pad + rng.randrange(0, 4)) + f"{mn} back\n",
+                     regions=[(0, 0x7D, 0x10000, False), (0x7E, 0x7F, 0x10000, True)])
+        pr["meta"] = (mn, 0, "runs-into-ram", "ram-source", pr["rom"])
+        progs.append(pr)
     for pr, r, m in run.run(progs):
         mn, d, place, reloc, rom = pr["meta"]
         s.cases += 1
@@ -394,6 +409,7 @@ def c07_streams(run, tier, seed):
     s = core.Stream("S4-data", "data-directive programs: every directive kind x list lengths 1..8 x values (boundary, negative, wider than the field, forward/backward labels, constants) x .ascii texts x .incbin files (lengths 0, 1, crossing a bank end); oracle: exact little-endian truncation, verbatim file bytes, start/size symbols, following label = start + emitted size; non-trivial = distinct (kind, value class)")
     vals = [0, 1, 0x7F, 0x80, 0xFF, 0x100, 0xFFFF, 0x10000, 0xFFFFFF, 0x1000000, 0x12345678, -1, -2, -0x80, -0x100, -0x8000, -0x10000, -0x1000000]
     progs = []
+    rebound = []
     for i in range(80 if tier == "quick" else 800):
         kind = rng.choice(["db", "dw", "dl", "pointer"])
         w = {"db": 1, "dw": 2, "dl": 3, "pointer": 3}[kind]
@@ -428,6 +444,20 @@ def c07_streams(run, tier, seed):
                    "he said \\'go\\'", "x\\'", "\\'"][(i // 6) % 10]
         src = f"*=0x{base:06x}\nstart:\n.{kind} " + ", ".join(items) + f"\nafter:\n.ascii '{txt}'\nafter2:\n{extra}end:\n"
         progs.append(raw("low_rom", src, bins=bins, meta=(kind, n, base, total, txt)))
+    # lists at and around sixteen entries over a name that the passes re-bind (inner `=` after an outer `:=`, a macro
+    # parameter): every entry is evaluated when the directive is emitted, whatever the length of the list
+    for n_ in (1, 15, 16, 17, 40) if tier == "quick" else (1, 2, 15, 16, 17, 31, 32, 33, 64, 200):
+        for k_ in ("db", "dw", "dl"):
+            w_ = {"db": 1, "dw": 2, "dl": 3}[k_]
+            v1, v2 = rng.randrange(1, 0x40), rng.randrange(0x40, 0x80)
+            items = ", ".join(f"base_zq + {i}" for i in range(n_))
+            exp = b"".join(((v2 + i) % (256 ** w_)).to_bytes(w_, "little") for i in range(n_))
+            src = f"*=0x018000\nbase_zq := {v1}\nstart:\n{{\nbase_zq = {v2}\n.{k_} {items}\n}}\nafter:\n.ascii ''\nafter2:\nend:\n"
+            progs.append(raw("low_rom", src, bins={}, meta=(k_, n_, 0x018000, n_ * w_, "")))
+            rebound.append((src, exp))
+            src2 = f"*=0x018000\nbase_zq := {v1}\n.macro tbl_zq(base_zq) {{\n.{k_} {items}\n}}\nstart:\ntbl_zq({v2})\nafter:\n.ascii ''\nafter2:\nend:\n"
+            progs.append(raw("low_rom", src2, bins={}, meta=(k_, n_, 0x018000, n_ * w_, "")))
+            rebound.append((src2, exp))
     # long operand lists (a data table of a thousand entries on one directive)
     for k_, n_ in (("dw", 1100), ("db", 1300)) if tier == "quick" else (("dw", 2048), ("db", 1500), ("dl", 1200), ("pointer", 1100)):
         w_ = {"db": 1, "dw": 2, "dl": 3, "pointer": 3}[k_]
@@ -442,6 +472,13 @@ def c07_streams(run, tier, seed):
         run.correspond(s, pr, r, m)
         pipeline.oracle_c07(run, s, pr, r)
         pipeline.oracle_c02(run, s, pr, r)
+        for src_, exp_ in rebound:
+            if src_ == pr["src"]:
+                got_ = b"".join(b for _, b in r["blocks"]) if r["status"] == "ok" else None
+                s.count("rebound-name-list")
+                if got_ != exp_:
+                    s.violate({"src": pr["src"][:400]}, exp_.hex()[:80], got_.hex()[:80] if got_ is not None else (r.get("exc") or r.get("error")),
+                              "a data list over a name re-bound by the passes does not emit the values the name has where the directive is emitted")
         if r["status"] == "ok" and r.get("nodes") is not None:
             # the output really holds every directive's bytes, in order, from the offset of `start` on
             import impl as _impl
